@@ -234,11 +234,17 @@ class LegacyPart(M.MiscPart):
                 big = rng.random() < 0.5
                 n = rng.choice([0, 1, 2, 5, 40])
                 means = sorted(rng.choice([rng.uniform(-1e3, 1e3), float(rng.randrange(-50, 50)), rng.uniform(-1, 1) * 1e-3]) for _ in range(n))
+                raw = list(means)
                 if not big:
                     means = [f32r(m) for m in means]
                 ws = [float(rng.choice([1, 1, 2, 7, 1000, 2**20])) for _ in range(n)]
                 mn = means[0] - rng.choice([0, 0.5]) if n else rng.uniform(-5, 5)
                 mx = means[-1] + rng.choice([0, 2.0]) if n else mn + 1
+                if not big and n and rng.random() < 0.5:
+                    # what the reference implementation really writes: min and max are the ORIGINAL doubles (0.7, 0.1, ...), the extreme
+                    # centroids are singletons holding them rounded to float - so the first mean may lie just below min, the last just above max
+                    mn, mx = raw[0], raw[-1]
+                    ws[0] = ws[-1] = 1.0
                 comp = float(rng.choice([10, 20, 100, 200, 1000]))
                 kind = rng.choice(["td.d", "td.f"])
                 if big:
